@@ -129,7 +129,8 @@ def bounded(tier, seed, procs):
                    bound="~1500 expressions x 5 target sets", functions=["CoefficientCollector.*"])
     leaves = [x, y, 2, -1, 3]
     ex = list(leaves) + trees.depth1([p.Sum, p.Product, p.Quotient, p.Power], leaves)
-    ex += trees.triples([p.Sum, p.Product, p.Quotient, p.Power], [x, 2, y])[::2]
+    _tr = trees.triples([p.Sum, p.Product, p.Quotient, p.Power], [x, 2, y])
+    ex += trees.thin(_tr, len(_tr) // 2, seed=1)
     for pos in range(4):
         for k in (2, 3, 4):
             if pos < k:
